@@ -1080,6 +1080,8 @@ class ParserField:
                         context.handle_error(error)
                     else:
                         context.collect_waring(error.formatted_message)
+                    # the field counts as not given (e.g. it does not demand its dependencies)
+                    context.excluded_fields.add(self.name)
                     # return default if provided
                     # return unprovided if no default is set
                     return self.get_default(options=context.options, defer=False)
